@@ -1,5 +1,6 @@
 import SplinkVerif.Drv.CC
 import SplinkVerif.Drv.CCSql
+import SplinkVerif.Drv.BCountSql
 import SplinkVerif.Drv.MultiThreshold
 import SplinkVerif.Drv.Blocking
 import SplinkVerif.Drv.BlockSql
@@ -29,6 +30,7 @@ def dispatch (j : Json) : Except String Json := do
   | "cc_sql" => handleCCSql j
   | "multi_sql" => handleMultiSql j
   | "gm_sql" => handleGMSql j
+  | "bcount_sql" => handleBCountSql j
   | "multi" => handleMulti j
   | "block" => handleBlock j
   | "block_sql" => handleBlockSql j
